@@ -75,6 +75,8 @@ def run(ctx):
             # with these two files and raised (a handler that is stricter than the library - extra
             # validation of its own - turns acceptable files away)
             rejected = [ev for ev in flat(p) if ev[0] == "call" and ev[2] in ("repo:authentication.verify_root", "repo:authentication.verify_delegation") and ev[5][0] == "raise"]
+            if ok and not rejected and _library_would_reject(eng, st, Tm, Um, uty):
+                rejected = ["(the verifier for the declared type has no accepting path under what this path established)"]
             if ok and not rejected:
                 ok = False
                 k = ("failure-without-library-rejection", show(v))
@@ -174,6 +176,30 @@ def run(ctx):
         ctx.count("R4.signers")
         ctx.ob("R4", "returns-only-after-writing|%s" % q, fn_site(eng, sms).loc(), "%s %s" % (q, "returns normally only after write_metadata_to_file succeeded (%d returning paths)" % len(rets) if rets and not nowrite else "can return normally without having written its output (%d of %d returning paths): the command would report success although nothing was signed" % (len(nowrite), len(rets))), bool(rets) and not nowrite)
     ctx.floor("R4.signers", 2)
+
+
+def _library_would_reject(eng, st, Tm, Um, uty):
+    """under the facts of this path, does the library's verifier for the declared type reject the
+    two files anyway?  (every accepting path of verify_root(T, U) / verify_delegation(type, U, T)
+    needs something the path has refuted) - then a failure status the command decides on by itself
+    turns away nothing the library would have accepted"""
+    from sa.terms import subst
+
+    if st.holds(("eq", uty, C("root"))):
+        sm = eng.summary(eng.prog.func("authentication.verify_root"))
+        mp = {P(sm.params[0]): Tm, P(sm.params[1]): Um}
+    elif st.holds(("ne", uty, C("root"))):
+        sm = eng.summary(eng.prog.func("authentication.verify_delegation"))
+        mp = {P(sm.params[0]): uty, P(sm.params[1]): Um, P(sm.params[2]): Tm}
+    else:
+        return False
+    rets = [p for p in sm.paths if p.kind == "return"]
+    if not rets:
+        return False
+    for p in rets:
+        if not any(st.contradicts(subst(f, mp)) for f in p.facts if f[0] in ("eq", "ne", "has", "nothas", "type", "nottype", "in", "notin")):
+            return False
+    return True
 
 
 def _nothing_to_sign(eng, sms, p):
